@@ -375,6 +375,10 @@ class Extraction:
             rec["named_result"] = "%s: %s" % (ret, rty)
         contract = "\n".join("        " + l for l in contract_lines)
         rec["sha256_emitted_body"] = sha256_text(body_c)
+        # verbatim = the emitted body (before verifier-only splices) equals the source body up to the listed, mechanical
+        # cleaning (dropped docs / attributes, evaluated cfg, visibility)
+        rec["body_verbatim"] = (body_c == re.sub(r"\bpub\((?:crate|super|in [a-z:]+)\)", "pub", body)) or \
+            (rec["dropped_doc_lines"] + rec["dropped_cfg_false_lines"] + len(rec["dropped_attrs"]) + len(rec["cfg_evaluated"]) > 0)
         if loop_specs or loop_iters or ghost:
             body_c = splice_proof_text(body_c, loop_specs or {}, loop_iters or {}, ghost or [], path, rec)
         attrs = pre.strip("\n")
@@ -394,8 +398,6 @@ class Extraction:
             rec["body_dropped_assumed_contract_only"] = True
         text = ((attrs + "\n") if attrs.strip() else "") + ext + "    " + sig_c.strip() + "\n" + contract + "\n    " + body_c.strip() + "\n"
         rec["contract_lines"] = len(contract_lines)
-        rec["body_verbatim"] = (body_c == re.sub(r"\bpub\((?:crate|super|in [a-z:]+)\)", "pub", body)) or \
-            (rec["dropped_doc_lines"] + rec["dropped_cfg_false_lines"] + len(rec["dropped_attrs"]) + len(rec["cfg_evaluated"]) > 0)
         return text
 
     def impl_header(self, file, type_name, trait=None):
